@@ -6,7 +6,7 @@ import itertools
 import numpy as np
 import pandas as pd
 
-from vfw import client, models
+from vfw import client, gen, models
 
 LEVEL = "exploration"
 SHARDS = {"quick": 2, "thorough": 16}
@@ -189,7 +189,7 @@ def run(ctx) -> None:
     # ---- seeded long series
     rng = ctx.rng
     for k in range(ctx.pick(150, 6000)):
-        n = rng.choice([0, 1, 2, 3, 17, 64, 257])
+        n = rng.choice([0, 1, 2, 3, 17, 64, 257, 1000])
         vals = [rng.choice([None, rng.randrange(-40, 41) / 4]) if rng.random() < 0.15 else rng.randrange(-40, 41) / 4
                 for _ in range(n)]
         a, b, c, d = sorted(rng.randrange(-40, 41) / 4 for _ in range(4))
@@ -197,7 +197,7 @@ def run(ctx) -> None:
         if rng.random() < 0.3:
             fail = fail[::-1]
         arr = np.array([np.nan if v is None else v for v in vals], dtype=float)
-        kw = {"inp": arr, "fail_span": fail, "suspect_span": sus}
+        kw = {"inp": arr, "fail_span": gen.ptype(rng, fail), "suspect_span": gen.ptype(rng, sus)}
         o, _ = client.expect(ctx, "C03", "qartod.gross_range_test", kw,
                              lambda: models.gross_range(vals, fail, sus),
                              logical={"values": vals, "fail_span": fail, "suspect_span": sus}, hist="gross_range")
